@@ -6,6 +6,8 @@ CONSTANTS
  PalArgs <- MCPal
  LegacyCache = FALSE
  WLConfigs <- MCWL
+ Pow2N <- Pow2NRec
+ SumOver <- SumOverRec
 CONSTRAINT LibDepth
 INVARIANT LibInvariants
 PROPERTY LibFrame
